@@ -458,6 +458,13 @@ func (st *state) call(f *ssa.Function, c ssa.CallInstruction) bool {
 				changed = true
 			}
 		}
+		// a method of an external interface called on owned state: a slice or map it returns may be a view of that
+		// state (datamodel.Node.AsBytes hands out the node's own bytes), not a copy
+		if cc.IsInvoke() && st.isT(cc.Value) && returnsView(val.Type()) {
+			if st.taint(val, st.why(cc.Value)+" (through "+cc.Method.Name()+")") {
+				changed = true
+			}
+		}
 	}
 	return changed
 }
@@ -480,6 +487,24 @@ func (st *state) noteReturns(f *ssa.Function) bool {
 }
 
 var _ = fmt.Sprintf
+
+// returnsView tells whether a result type contains a slice or a map (directly or as a tuple component).
+func returnsView(t types.Type) bool {
+	switch u := t.(type) {
+	case *types.Tuple:
+		for i := 0; i < u.Len(); i++ {
+			if returnsView(u.At(i).Type()) {
+				return true
+			}
+		}
+		return false
+	}
+	switch t.Underlying().(type) {
+	case *types.Slice, *types.Map:
+		return true
+	}
+	return false
+}
 
 func elemType(t types.Type) types.Type {
 	switch u := t.Underlying().(type) {
